@@ -335,7 +335,9 @@ class C05(Prop):
                         out.append(('balance', '%s: one side of the balance is zero, the other is not (%r vs %r)' % (what, lhs, rhs), None))
                 return
             d = (math.log(lhs) + L) - (math.log(rhs) + Lp)
-            if abs(d) > 1e-7:
+            # factors (or their products) in the subnormal range carry a relative rounding error of 2^-1074 / value
+            sub = sum(2e-323 / f for f in (pi0, qf, a0, pi1, qb, a1, pi0 * qf, pi1 * qb, lhs, rhs) if 0 < f < 2.3e-308)
+            if abs(d) > 1e-7 + sub:
                 out.append(('balance', '%s: prior*exp(L)*q*a differs between the two directions by a factor exp(%r)' % (what, d), None))
         for nme in ('a_fwd', 'a_bwd', 'a_up', 'a_down'):
             if nme in impl and not (0.0 <= impl[nme] <= 1.0):
